@@ -476,6 +476,13 @@ func arrayFilledFromFullRange(v ssa.Value) (bool, string) {
 		for _, rr := range *ia.Referrers() {
 			if st, ok := rr.(*ssa.Store); ok && st.Addr == ssa.Value(ia) {
 				blk := st.Block()
+				// a pointer element is made in the iteration that stores it: one object stored at every index
+				// would make every element the last one
+				if _, isPtr := st.Val.Type().Underlying().(*types.Pointer); isPtr {
+					if fresh := freshIn(st.Val, blk); !fresh {
+						return false, "(every element of the array is the same object: the value stored is created outside the loop and only modified inside it)"
+					}
+				}
 				if len(blk.Preds) == 1 {
 					if _, isIf := blk.Preds[0].Instrs[len(blk.Preds[0].Instrs)-1].(*ssa.If); isIf {
 						if bo, ok := blk.Preds[0].Instrs[len(blk.Preds[0].Instrs)-1].(*ssa.If).Cond.(*ssa.BinOp); ok && bo.Op == token.LSS {
@@ -716,6 +723,23 @@ func (c *Ctx) checkEIP191(sf *sol.File) {
 	}
 	check("NewEthereumSignature", false)
 	check("ValidateEthereumSignature", true)
+	// the verifier recovers one address from the signature as it is (after the 27/28 normalisation) and compares
+	// it: a second recovery with another recovery id accepts signatures the contract's ecrecover attributes to
+	// another address
+	if vf := p.Func("mhub2/types.ValidateEthereumSignature"); vf != nil {
+		nRec := 0
+		for g := range p.ReachCS(vf) {
+			if g.Pkg != vf.Pkg {
+				continue
+			}
+			ana.Calls(g, func(site ssa.CallInstruction, d ana.CalleeDesc) {
+				if d.Name == "SigToPub" || d.Name == "Ecrecover" || d.Name == "RecoverPubkey" {
+					nRec++
+				}
+			})
+		}
+		r.Check(nRec == 1, "C07.eip191", "single-recovery", p.Pos(vf.Pos()), "the verifier recovers the signer once", sprintf("the verifier recovers a public key %d times: a signature is accepted if any of several recovery ids yields the expected address, while the contract recovers exactly one address from the same bytes", nRec))
+	}
 	r.Check(solPrefix == "\x19Ethereum Signed Message:\n32", "C07.eip191", "contract", sprintf("Hub2.sol:%d", lineOf(sf, "verifySig")), "verifySig hashes \"\\x19Ethereum Signed Message:\\n32\" ‖ digest", "the contract's verifySig prefix is not the 32-byte EIP-191 prefix: "+solPrefix)
 	// the verifier compares the recovered address with the expected one
 	if f := p.Func("mhub2/types.ValidateEthereumSignature"); f != nil {
@@ -851,4 +875,36 @@ func lossyStep(p *ana.Prog, v ssa.Value, l *ana.Prov) string {
 	}
 	walk(v, 0)
 	return out
+}
+
+// freshIn: the pointer value is created in block b (a call returning a new object or an allocation made there),
+// possibly wrapped in method calls that return their receiver.
+func freshIn(v ssa.Value, b *ssa.BasicBlock) bool {
+	for i := 0; i < 6; i++ {
+		switch x := v.(type) {
+		case *ssa.Alloc:
+			return x.Block() == b
+		case *ssa.Call:
+			// a constructor (no pointer receiver among the arguments) called in the block
+			recvLike := false
+			for _, a := range x.Call.Args {
+				if _, isPtr := a.Type().Underlying().(*types.Pointer); isPtr && types.Identical(a.Type(), x.Type()) {
+					recvLike = true
+					v = a
+					break
+				}
+			}
+			if !recvLike {
+				return x.Block() == b
+			}
+			continue
+		case *ssa.ChangeType:
+			v = x.X
+			continue
+		case *ssa.Phi, *ssa.Parameter, *ssa.UnOp:
+			return false
+		}
+		break
+	}
+	return false
 }
